@@ -32,6 +32,10 @@ CHECKS = {
   text="Theorems in coq/Props/C18.v over Model/Graph.v (documents as node graphs): expansion of aliases into copies terminates with a verdict for EVERY graph -- it never exhausts its fuel, self-references are rejected with RecognitionError (proved via a pigeonhole bound on the current path) -- and loading a graph is by construction loading its expansion, hence fails iff that fails. The content that aliases are transparent in the IMPLEMENTATION is carried by fix 3ade162 (expand before processing) and the tie.",
   note="Trusted: Coq kernel; tie: Loader.__expand_aliases vs Graph.expand on every composed graph of the run; aliased vs textually expanded document on the implementation (metamorphic); aliased document on the implementation vs the load model on the expanded tree; 7 cyclic documents x 4 declared types x 6 models must raise RecognitionError/YAMLError.",
   technique=TECH, design='6 C18'),
+ 'C04': dict(
+  text="Theorems in coq/Props/C04.v: (1) on every successfully processed document, construction is insensitive to how user constructors behave on keyword arguments that do not conform to their own signature -- i.e. constructors are only ever invoked with arguments that passed the type check, on succeeding and failing loads alike (stated without an event log, as an extensional irrelevance theorem over arbitrary replacement constructors); (2) an object is built only where the declared type admits its class; (3) Any / untyped / extra positions hold plain data: strip_tags establishes `stripped`, stripped nodes construct to plain values. All for arbitrary hooks and documents.",
+  note="Trusted: Coq kernel; load model tied to yatiml by the tag-injection stream (700 quick / ~17k thorough cases, both outcome directions compared); every __init__ log entry of the self-instrumenting classes is judged independently in Python; 'nothing named by the document is imported or called' is yaml.SafeLoader's contract -- observed with a canary module on sys.path and a sys.addaudithook monitor, not proved.",
+  technique=TECH, design='6 C04, 9'),
 }
 
 REASON_TODO = 'check not built yet (work in progress; DESIGN.md section 11 gives the build order)'
